@@ -339,7 +339,7 @@ class AI(object):
                 inheap.discard(nid)
                 n = byid[nid]
                 self.stats['steps'] += 1
-                if self.stats['steps'] > 400000:
+                if self.stats['steps'] > getattr(self, 'step_budget', 400000):
                     raise AnalysisBroken('abstract interpretation exceeded its step budget in %s' % qn(f))
                 pset = ins.get(nid, {})
                 outs = []       # (succ node, state)
